@@ -10,5 +10,6 @@ CONSTANTS
   MaxBuilds = 99
   Variant = "found"
   Fuel = 50
+  Styles <- QuotedOnly
   MaxHist = 7
 CONSTRAINT EmitDiverged
